@@ -1,4 +1,4 @@
-import HappyProofs.C08.PipeStep
+import HappyProofs.C08.PipeParts
 import HappyProofs.C08.FairStep
 /-!
 # C08 — property theorems
@@ -157,14 +157,26 @@ end HappyModel.C08
 namespace HappyModel.C08.Pipe
 open HappyModel.C08
 
-/-! ## Part 2 — Queue + QueueDriver + Server (repaired driver) -/
+/-! ## Part 2 — Queue + QueueDriver + Server (repaired driver)
+
+`Setting c`: repaired driver, `Server` worker, queue policy FIFO / LIFO / stable priority / deadline /
+adaptive LIFO / fair / weighted fair, with or without the balking wrapper (`Plain`, which also says
+what the pipeline model does not exercise: expiry, balking draws).  `Sched c s as`: the schedule `as`
+is admissible from `s` (a `QueueDispatchedEvent` is never delivered before the payload it follows).
+Every statement is about `final c s₀ as` for **every** admissible `as`; since every prefix of an
+admissible schedule is admissible (`sched_take`), that is: after every event of every run. -/
+
+/-- the protocol invariant and the policy refinement relation at the end of an admissible schedule -/
+theorem final_pinv {c : PCfg} (st : Setting c) (lim : Nat) (as : List Act) (hs : Sched c { limit := lim } as) :
+    PInv c (final c { limit := lim } as) :=
+  (final_inv st as _ {} hs (inv_init c lim) (polrel_init _)).1
 
 /-- work in service never exceeds the concurrency limit, for every admissible delivery schedule -/
 theorem in_service_le_limit {c : PCfg} (st : Setting c) (lim : Nat) (as : List Act)
     (hs : Sched c { limit := lim } as) :
     (final c { limit := lim } as).inService.length ≤ lim ∧
     (final c { limit := lim } as).active = (final c { limit := lim } as).inService.length := by
-  have h := final_inv st as _ hs (inv_init c lim)
+  have h := final_pinv st lim as hs
   have hl : (final c { limit := lim } as).limit = lim := final_limit as _ hs
   refine ⟨?_, h.act⟩
   have := h.le
@@ -175,7 +187,7 @@ theorem in_service_le_limit {c : PCfg} (st : Setting c) (lim : Nat) (as : List A
     the only rejection is the counted one at offer time -/
 theorem no_accepted_item_discarded {c : PCfg} (st : Setting c) (lim : Nat) (as : List Act)
     (hs : Sched c { limit := lim } as) : (final c { limit := lim } as).rejected = 0 :=
-  (final_inv st as _ hs (inv_init c lim)).rej
+  (final_pinv st lim as hs).rej
 
 /-- every accepted item is waiting, in transit inside the current instant, in service or completed:
     the four populations add up to `stats_accepted` at every point of every admissible schedule.
@@ -184,16 +196,85 @@ theorem item_state_partition_partial {c : PCfg} (st : Setting c) (lim : Nat) (as
     (hs : Sched c { limit := lim } as) :
     let s := final c { limit := lim } as
     s.acc = s.depth c + (s.delivers.length + s.works.length) + s.inService.length + s.completed := by
-  have h := (final_inv st as _ hs (inv_init c lim)).count
+  have h := (final_pinv st lim as hs).count
   simp only; omega
 
-/-- the full statement: identities, not only counts (not proved; the judge checks it on every run) -/
-def item_state_partition_full : Prop :=
-  ∀ (c : PCfg), Setting c → ∀ (lim : Nat) (as : List Act), Sched c { limit := lim } as →
-    ∀ it, Act.arr it ∈ as → (as.filter (· == Act.arr it)).length = 1 →
-      let s := final c { limit := lim } as
-      ((s.q.q.map (·.item.id)).count it.id + s.delivers.count it.id + s.works.count it.id +
-        s.inService.count it.id ≤ 1)
+/-- **item_state_partition**, identities: for every setting, limit and admissible schedule whose
+    offered item ids are pairwise distinct, at the end of the schedule — hence, every prefix of an
+    admissible schedule being one (`item_state_partition_every_event`), after every event — every
+    offered id is in exactly one of rejected-and-counted (`refused`, `dropped` counts them) /
+    waiting (`waitIds`: the queue policy's contents) / in transit (`delivers`, `works`) / in
+    service / completed (`done`, `completed` counts them): the concatenation of the populations
+    is a permutation of the offered ids and every offered id occurs in it exactly once; `done`
+    has no duplicates (completed at most once); nothing was discarded after dequeue.
+    `ghost` reads the refused / accepted / completed ids off the visible trace of `run`
+    (`ghost_eq_fold`). -/
+theorem item_state_partition_full {c : PCfg} (st : Setting c) (lim : Nat) (as : List Act)
+    (hs : Sched c { limit := lim } as) (hd : (offeredIds as).Nodup) :
+    Partition c (final c { limit := lim } as) (ghost c { limit := lim } {} as) (offeredIds as) := by
+  have hf := final_inv st as _ {} hs (inv_init c lim) (polrel_init _)
+  have hg := final_ginv c as _ {} {} (polrel_init _) (ginv_init lim)
+  have ho : (ghost c { limit := lim } {} as).offered = offeredIds as := by
+    rw [ghost_offered]; rfl
+  have := partition_of_inv hf.2 hg hf.1.rej (by rw [ho]; exact hd)
+  rw [ho] at this; exact this
+
+/-- the same after every event: the state after the first `n` deliveries of an admissible schedule -/
+theorem item_state_partition_every_event {c : PCfg} (st : Setting c) (lim : Nat) (as : List Act)
+    (hs : Sched c { limit := lim } as) (hd : (offeredIds as).Nodup) (n : Nat) :
+    Partition c (final c { limit := lim } (as.take n)) (ghost c { limit := lim } {} (as.take n))
+      (offeredIds (as.take n)) :=
+  item_state_partition_full st lim (as.take n) (sched_take n as _ hs) (offeredIds_take_nodup hd n)
+
+/-- no item is lost or duplicated by **any** variant, worker or schedule (admissible or not): with
+    the seventh population "discarded by the `Server` after dequeue" (`requests_rejected`), every
+    offered id is in exactly one population — also under the unrepaired driver, whose defect
+    (`double_poll_discards`) is that the seventh population is not empty -/
+theorem item_state_partition_any_schedule (c : PCfg) (lim : Nat) (as : List Act) (hd : (offeredIds as).Nodup) :
+    Partition7 c (final c { limit := lim } as) (ghost c { limit := lim } {} as) (offeredIds as) := by
+  have hr := final_rel c as { limit := lim } {} (polrel_init _)
+  have hg := final_ginv c as _ {} {} (polrel_init _) (ginv_init lim)
+  have ho : (ghost c { limit := lim } {} as).offered = offeredIds as := by
+    rw [ghost_offered]; rfl
+  have := partition7_of_inv hr hg (by rw [ho]; exact hd)
+  rw [ho] at this; exact this
+
+/-- **fifo_end_to_end**, service starts: with a FIFO queue (any limit) the accepted ids, in
+    acceptance order, are exactly: the ids whose service has started, in start order, then the (at
+    most one) id in transit, then the waiting ids in queue order — so items start service in the
+    order they were accepted, after every event of every admissible schedule -/
+theorem fifo_start_order {c : PCfg} (st : Setting c) (hk : c.pol.kind = .fifo) (lim : Nat) (as : List Act)
+    (hs : Sched c { limit := lim } as) :
+    let s := final c { limit := lim } as
+    let g := ghost c { limit := lim } {} as
+    g.accepted = g.started ++ ((s.delivers ++ s.works) ++ waitIds c.pol s.q) ∧
+    (s.delivers ++ s.works).length ≤ 1 ∧ g.started <+: g.accepted := by
+  have hf := final_inv st as _ {} hs (inv_init c lim) (polrel_init _)
+  have ho := (final_finv st hk as _ {} {} hs (polrel_init _) (inv_init c lim) (finv_init lim)).ord
+  rw [← polrel_waitIds_eq hf.2 (by simp [Kind.isFlow, hk])] at ho
+  exact ⟨ho, transit_le_one hf.1, ho ▸ List.prefix_append _ _⟩
+
+/-- **fifo_end_to_end**: with a FIFO queue and one slot (concurrency limit 1) the accepted ids, in
+    acceptance order, are exactly: the completed ids in completion order, then the (at most one)
+    id in service or on its way to the worker, then the waiting ids in queue order — so items
+    complete in the order they were accepted: `done` is a prefix of `accepted` after every event
+    of every admissible schedule -/
+theorem fifo_end_to_end {c : PCfg} (st : Setting c) (hk : c.pol.kind = .fifo) (as : List Act)
+    (hs : Sched c { limit := 1 } as) :
+    let s := final c { limit := 1 } as
+    let g := ghost c { limit := 1 } {} as
+    g.accepted = g.done ++ ((s.inService ++ (s.delivers ++ s.works)) ++ waitIds c.pol s.q) ∧
+    (s.inService ++ (s.delivers ++ s.works)).length ≤ 1 ∧ g.done <+: g.accepted := by
+  have hf := final_inv st as _ {} hs (inv_init c 1) (polrel_init _)
+  have hl : (final c { limit := 1 } as).limit = 1 := final_limit as _ hs
+  have hfi := final_finv st hk as _ {} {} hs (polrel_init _) (inv_init c 1) (finv_init 1)
+  have ho := hfi.ord
+  rw [← polrel_waitIds_eq hf.2 (by simp [Kind.isFlow, hk]), hfi.one hl] at ho
+  have ho' : (ghost c { limit := 1 } {} as).accepted = (ghost c { limit := 1 } {} as).done ++
+      (((final c { limit := 1 } as).inService ++ ((final c { limit := 1 } as).delivers ++ (final c { limit := 1 } as).works)) ++
+        waitIds c.pol (final c { limit := 1 } as).q) := by
+    rw [ho]; simp only [List.append_assoc]
+  exact ⟨ho', busy_le_one hf.1 hl, ho' ▸ List.prefix_append _ _⟩
 
 /-- no strand: whenever the component is quiescent (no protocol event pending, so simulated time is
     about to pass) and an item waits, the worker has no free slot -/
@@ -201,7 +282,7 @@ theorem no_strand {c : PCfg} (st : Setting c) (lim : Nat) (as : List Act)
     (hs : Sched c { limit := lim } as) :
     quiescent (final c { limit := lim } as) = true → 0 < (final c { limit := lim } as).depth c →
       (final c { limit := lim } as).limit ≤ (final c { limit := lim } as).active := by
-  have h := final_inv st as _ hs (inv_init c lim)
+  have h := final_pinv st lim as hs
   generalize final c { limit := lim } as = s at h
   intro hq hd
   by_cases hlt : s.active < s.limit
@@ -231,11 +312,51 @@ def schedR : List Act :=
    .fin 0, .arr itC, .arr itD, .poll, .notify, .deliver (some 1), .work 1, .disp,
    .fin 1, .poll, .deliver (some 2), .work 2, .disp, .fin 2, .poll, .deliver none]
 
-example : Setting cfgR := ⟨rfl, rfl, ⟨Or.inl rfl, rfl⟩⟩
+example : Setting cfgR := ⟨rfl, rfl, Or.inl rfl⟩
 example : Sched cfgR { limit := 1 } schedR := by decide
 example : (final cfgR { limit := 1 } schedR).completed = 3 ∧ (final cfgR { limit := 1 } schedR).acc = 3 := by decide
 example : let s := final cfgR { limit := 1 } (schedR.take 14)
     quiescent s = true ∧ s.depth cfgR = 1 ∧ s.active = 1 := by decide
+
+/-! ### non-vacuity of the identity and order theorems: a FIFO queue of capacity 1 in front of a
+    one-slot server; item 2 is refused (queue full), items 1 and 3 wait, three items complete -/
+
+def cfgK : PCfg := { variant := .repaired, worker := .server, pol := { kind := .fifo, cap := some 1 } }
+def itm (i : Nat) : Item := ⟨i, 0, 0⟩
+
+def schedK : List Act :=
+  [.arr (itm 0), .notify, .poll, .arr (itm 1), .arr (itm 2), .deliver (some 0), .work 0, .disp,
+   .fin 0, .poll, .arr (itm 3), .deliver (some 1), .work 1, .disp, .notify,
+   .fin 1, .poll, .deliver (some 3), .work 3, .disp, .fin 3, .poll, .deliver none]
+
+example : Setting cfgK := ⟨rfl, rfl, Or.inl rfl⟩
+/-- the hypotheses of `item_state_partition_full` and `fifo_end_to_end` hold of it -/
+example : Sched cfgK { limit := 1 } schedK ∧ (offeredIds schedK).Nodup ∧ cfgK.pol.kind = .fifo := by decide
+/-- at the end: one refused and counted, three completed once each, in acceptance order -/
+example : ghost cfgK { limit := 1 } {} schedK =
+    { offered := [0, 1, 2, 3], refused := [2], accepted := [0, 1, 3], started := [0, 1, 3], done := [0, 1, 3] } ∧
+    (final cfgK { limit := 1 } schedK).dropped = 1 ∧ (final cfgK { limit := 1 } schedK).completed = 3 := by decide
+/-- after 14 events every population but "in transit" is inhabited: item 2 refused, item 3 waiting,
+    item 1 in service, item 0 completed — and the conclusions of the theorems, computed -/
+example : let s := final cfgK { limit := 1 } (schedK.take 14)
+    let g := ghost cfgK { limit := 1 } {} (schedK.take 14)
+    g.refused = [2] ∧ waitIds cfgK.pol s.q = [3] ∧ s.delivers ++ s.works = [] ∧ s.inService = [1] ∧ g.done = [0] ∧
+    populations cfgK s g = [2, 3, 1, 0] ∧ g.accepted = g.done ++ ((s.inService ++ (s.delivers ++ s.works)) ++ waitIds cfgK.pol s.q) := by
+  decide
+/-- after 10 events item 1 is in transit (dequeued, not yet at the worker) -/
+example : (final cfgK { limit := 1 } (schedK.take 10)).delivers = [1] := by decide
+
+/-- the wider setting: a fair queue behind the balking wrapper; flow 0 holds items 0 and 1, flow 1
+    item 2 — served round robin, item 1 still waits -/
+def cfgF : PCfg := { variant := .repaired, worker := .server, pol := { kind := .fair, balk := some 1 } }
+def schedF : List Act :=
+  [.arr ⟨0, 0, 0⟩, .arr ⟨1, 0, 0⟩, .arr ⟨2, 0, 1⟩, .notify, .poll, .deliver (some 0), .work 0, .disp,
+   .fin 0, .poll, .deliver (some 2), .work 2, .disp]
+
+example : Setting cfgF := ⟨rfl, rfl, Or.inr (Or.inr (Or.inr (Or.inr (Or.inr (Or.inl rfl)))))⟩
+example : Sched cfgF { limit := 1 } schedF ∧ (offeredIds schedF).Nodup := by decide
+example : populations cfgF (final cfgF { limit := 1 } schedF) (ghost cfgF { limit := 1 } {} schedF) = [1, 2, 0] ∧
+    (final cfgF { limit := 1 } schedF).inService = [2] := by decide
 
 /-! ### the current code falsifies the clauses (DESIGN §9-8): concrete delivery sequences of the
     unpatched implementation, replayed on the `current` variant -/
@@ -250,6 +371,9 @@ def schedC : List Act :=
 theorem double_poll_discards :
     (final cfgC { limit := 1 } schedC).rejected = 1 ∧ (final cfgC { limit := 1 } schedC).acc = 3 ∧
     (final cfgC { limit := 1 } schedC).depth cfgC = 0 := by decide
+
+/-- the unrepaired driver on the §9-8 input: nothing is lost, but item 2 ends in the seventh population -/
+example : (ghost cfgC { limit := 1 } {} schedC).discarded = [2] ∧ (offeredIds schedC).Nodup := by decide
 
 /-- with a worker that does not re-check (plain QueuedResource / ShiftedServer) the limit is exceeded -/
 theorem double_poll_over_admits :
